@@ -286,8 +286,11 @@ def run_shard(args):
     byid = {c["id"]: c for c in cases}
     got = {}
     if os.path.exists(out):
-        for l in open(out):
-            r = json.loads(l)
+        for l in open(out, errors="replace"):
+            try:
+                r = json.loads(l)
+            except ValueError:
+                break
             got[r["id"]] = r["results"]
     obs = os.path.join(CACHE, "jobs", name + ".obs.ndjson")
     lines = []
